@@ -9,6 +9,7 @@ import (
 //zzv:bound S1 = one real poll (updateSensor -> Sensor.GetValue -> UpdateSimpleMovingAvg) of a hwmon / file / cmd sensor: previous smoothed value any float64 with |avg| <= 2^20, reading any integer |x| <= 2^20, window n in {1,2,10} (thorough 1..32): min(avg,x) <= avg' <= max(avg,x); by induction the smoothed value stays within the hull of the initial value and all readings
 //zzv:bound S2 = geometric approach as absolute rungs (ratio form does not finish): |avg-c| <= d implies |avg'-c| <= d*(1-1/n)*(1+1e-6) for a constant integer reading c (|c| <= 2^20), d in {2^20, 1000, 1} and n in {2,10} quick; full ladders d = 2^20 .. 1 for n in {2,10} thorough
 //zzv:bound S3 = a poll whose read fails (file missing / unreadable, command exits non-zero with or without a number on its output, non-numeric text) returns an error and leaves the smoothed value bit-identical, for each sensor backend
+//zzv:bound S3h = three consecutive polls of one sensor object (each backend, window 1 / 2 / 10), each poll independently a successful read (any integer up to 2^20 in magnitude), a missing file or non-numeric content: every failed poll returns an error and leaves the smoothed value bit-identical wherever it sits in the sequence
 //zzv:bound S4 = a poll whose read yields NaN or +-Inf (cmd sensor printing nan/inf) leaves the smoothed value unchanged
 //zzv:outside windows above 32; magnitudes above 2^20 milli-degrees (1048 degrees); timing of polls; the initial seeding read
 //zzv:opts fptimeout_quick=240
@@ -168,4 +169,42 @@ func ZZ_C08_S3_FailingCommandIgnored() {
 	zzv.RecordF("avgAfter", after)
 	zzv.Assert(uerr != nil, "S3.failing_command_is_reported")
 	zzv.Assert(after == avg, "S3.failing_command_leaves_average_unchanged")
+}
+
+// S3h: fault placements within a sequence ("all placements of read faults within those sequences"):
+// three consecutive polls of the same sensor object, each one a successful read, a missing /
+// unreadable file or non-numeric content, chosen independently. The single-poll harnesses start
+// every poll from a fresh sensor; whatever a sensor remembers between polls is only reachable by
+// polling it repeatedly.
+func ZZ_C08_S3h_FaultHistories() {
+	kind := zzv.Choice("kind", 3)
+	configuration.CurrentConfig.TempRollingWindowSize = []int{1, 2, 10}[zzv.Choice("window", 3)]
+	path := zzv.TempDir("sensor") + "/temp1_input"
+	zzv.FilePut(path, true, 40000)
+	s := zzNewSensor(kind, path)
+	s.SetMovingAvg(zzBoundedAvg("avg"))
+	for _, tag := range []string{"1", "2", "3"} {
+		before := s.GetMovingAvg()
+		what := zzv.Choice("poll"+tag, 3)
+		switch what {
+		case 0:
+			x := zzv.Int("reading" + tag)
+			zzv.Assume(x >= -(1 << 20))
+			zzv.Assume(x <= 1<<20)
+			zzv.FilePut(path, true, x)
+		case 1:
+			zzv.FilePut(path, false, 0)
+		default:
+			zzv.FileGarbage(path)
+		}
+		err := updateSensor(s)
+		after := s.GetMovingAvg()
+		zzv.RecordF("avgAfter"+tag, after)
+		if what == 0 {
+			zzv.Assert(err == nil, "S3h.successful_read_is_no_error")
+		} else {
+			zzv.Assert(err != nil, "S3h.failed_read_is_reported")
+			zzv.Assert(after == before, "S3h.failed_read_leaves_average_unchanged")
+		}
+	}
 }
